@@ -169,7 +169,7 @@ def _hooks(model, tensor_init):
         if t.startswith('isinstance('):
             return True
         if 'device' in t:
-            return True
+            return ' != ' not in t and ' is not ' not in t        # all operands live on the one supported device
         return None
     return call_hook, attr_hook, sub_hook, default_pred, comp_hook
 
